@@ -1,6 +1,6 @@
 #!/bin/bash
 # ./mut.sh <patch.diff> <PROP> [tier] : apply a seeded change to /repo, run the check, always revert.
-P=$1; PROP=$2; TIER=${3:-quick}
+P=$(readlink -f "$1"); PROP=$2; TIER=${3:-quick}
 git -C /repo diff --quiet || { echo "/repo not clean"; exit 3; }
 git -C /repo apply "$P" || { echo "patch does not apply"; exit 3; }
 trap 'git -C /repo checkout -- . ; git -C /repo status --short | grep -v "^??" ' EXIT
